@@ -58,6 +58,10 @@ def replay_main(mod, path, as_json):
     with open(path) as fh:
         rep = json.load(fh)
     case = rep["case"]
+    if getattr(mod, "VARIANT", None):
+        from mc.boot import use_variant
+
+        use_variant(mod.VARIANT)
     if hasattr(mod, "worker_init"):
         mod.worker_init(rep.get("tier", "quick"), rep.get("seed", 0))
     try:
@@ -107,6 +111,10 @@ def main(cid, tier, seed, replay=None, as_json=False, nproc=None, max_confirm=4)
     os.makedirs(REPLAYS, exist_ok=True)
     known = load_known()
     variant = getattr(mod, "VARIANT", None)
+    if variant:
+        from mc.build import build
+
+        build(variant)
     if hasattr(mod, "prepare"):
         mod.prepare(tier, seed)  # builds etc. in the parent, before forking
 
@@ -247,6 +255,6 @@ def main(cid, tier, seed, replay=None, as_json=False, nproc=None, max_confirm=4)
     with open(os.path.join(EVID, "%s.json" % cid), "w") as fh:
         json.dump(ev, fh, indent=1, default=str)
     print("%s %s seed=%d: cases=%d states=%d edges=%d evals=%d outcomes=%d undecided=%d violations=%d known=%d wall=%.1fs exit=%d" % (
-        cid, tier, seed, len(all_cases), n_states, n_edges, n_evals, len(outcomes), n_undecided,
+        cid, tier, seed, len(all_cases), cov["states"], cov["transitions"], n_evals, len(outcomes), n_undecided,
         n_viol, len(known_seen), time.time() - t_start, exit_code))
     return exit_code
